@@ -208,3 +208,42 @@ def access_paths(fn, roots, within=None):
             if isinstance(n, (ast.Attribute, ast.Subscript, ast.Name)):
                 out |= paths(n)
     return out
+
+
+def assigned_from(fn, text):
+    """names of the locals of fn assigned (as a single Name target, or as the
+    i-th element of a tuple target: `text` then ends with `#i`) from an
+    expression matching the pattern"""
+    from ..engine import pattern as P
+    idx = None
+    if "#" in text and text.rsplit("#", 1)[1].isdigit():
+        text, i = text.rsplit("#", 1)
+        idx = int(i)
+    kind, pat = P.compile_pattern(text)
+    out = set()
+    for s in walk_func(fn):
+        if isinstance(s, ast.Assign) and len(s.targets) == 1 and P.match(pat, s.value, {}):
+            t = s.targets[0]
+            if idx is None and isinstance(t, ast.Name):
+                out.add(t.id)
+            elif idx is not None and isinstance(t, (ast.Tuple, ast.List)) and idx < len(t.elts) and isinstance(t.elts[idx], ast.Name):
+                out.add(t.elts[idx].id)
+    return out
+
+
+def describe_owner(fn, node, name):
+    """stable description of a local for keys: parameters by name, a local with
+    a single call definition as `(callee)`"""
+    from ..engine import flow
+    if fn is None:
+        return name
+    if name in param_names(fn):
+        return name
+    try:
+        defs = flow.Reaching(fn).defs_at(enclosing_stmt(node), name)
+    except AnalysisError:
+        return name
+    defs = [d for d in defs if isinstance(d, ast.Assign)]
+    if len(defs) == 1 and isinstance(defs[0].value, ast.Call) and dotted(defs[0].value.func):
+        return "(%s)" % dotted(defs[0].value.func)
+    return name
